@@ -834,7 +834,7 @@ pub fn verif_mem_of_front(v: &Vec<StreamEntry>, n: usize) -> usize { unimplement
 //@@   rewrite RT "data.memory_usage -= memory_to_free;" "data.memory_usage = data.memory_usage.wrapping_sub(memory_to_free);"
 //@@   rewrite RT "self.length.fetch_sub(to_remove, Ordering::Relaxed);" "stream.length = stream.length - to_remove;"
 //@@   rewrite RT "self.memory_usage.fetch_sub(memory_to_free, Ordering::Relaxed);" "stream.memory_usage = stream.memory_usage.wrapping_sub(memory_to_free);"
-fn trim_by_count(data: &mut StreamData, stream: &mut Stream, max_count: usize) -> (r: usize)
+fn stream_trim_by_count(data: &mut StreamData, stream: &mut Stream, max_count: usize) -> (r: usize)
     requires log_wf(*old(data), *old(stream)),
     ensures log_wf(*final(data), *final(stream)), final(data).last_id == old(data).last_id,
         // C15 (XTRIM MAXLEN): the OLDEST entries go until at most max_count are left; the reply is how many went; XLEN follows
@@ -911,7 +911,7 @@ pub proof fn lemma_remove_contains(s: Seq<StreamEntry>, idx: int)
 //@@|             assert(data.entries@.contains(data.entries@[j])); let k = choose|k: int| 0 <= k < es.len() && es[k] == data.entries@[j];
 //@@|         }
 //@@|     }
-fn delete(data: &mut StreamData, stream: &mut Stream, ids: &[StreamId]) -> (r: usize)
+fn stream_delete(data: &mut StreamData, stream: &mut Stream, ids: &[StreamId]) -> (r: usize)
     requires log_wf(*old(data), *old(stream)),
     ensures log_wf(*final(data), *final(stream)), final(data).last_id == old(data).last_id,
         // C15 (XDEL): exactly the entries whose id is named go — each once however often it is named, unknown ids change nothing — the others
@@ -930,7 +930,7 @@ fn delete(data: &mut StreamData, stream: &mut Stream, ids: &[StreamId]) -> (r: u
 //@@   rewrite RT "data.memory_usage -= memory_to_free;" "data.memory_usage = data.memory_usage.wrapping_sub(memory_to_free);"
 //@@   rewrite RT "self.length.fetch_sub(split_idx, Ordering::Relaxed);" "stream.length = stream.length - split_idx;"
 //@@   rewrite RT "self.memory_usage.fetch_sub(memory_to_free, Ordering::Relaxed);" "stream.memory_usage = stream.memory_usage.wrapping_sub(memory_to_free);"
-fn trim_by_min_id(data: &mut StreamData, stream: &mut Stream, min_id: &StreamId) -> (r: usize)
+fn stream_trim_by_min_id(data: &mut StreamData, stream: &mut Stream, min_id: &StreamId) -> (r: usize)
     requires log_wf(*old(data), *old(stream)),
     ensures log_wf(*final(data), *final(stream)), final(data).last_id == old(data).last_id,
         // C15 (XTRIM MINID): exactly the entries with an id below min_id go; the reply is how many; XLEN follows
